@@ -5,7 +5,10 @@
 package fx
 
 import (
+	"encoding/base64"
 	"encoding/json"
+	"math/big"
+	"strconv"
 	"fmt"
 	"io"
 	"os"
@@ -21,6 +24,7 @@ import (
 	"github.com/freeconf/yang/meta"
 	"github.com/freeconf/yang/parser"
 	"github.com/freeconf/yang/source"
+	"github.com/freeconf/yang/val"
 )
 
 // Fixture is a compiled fixture schema with its abstract description.
@@ -116,7 +120,7 @@ func ExportSchema(m *meta.Module) abs.Schema {
 					walk(cs, sp, nc, chPath+x.Ident()+":"+cs.Ident()+":")
 				}
 			case *meta.Container, *meta.List, *meta.Leaf, *meta.LeafList:
-				n := abs.SNode{SP: append(append([]string{}, sp...), d.Ident()), Keys: []string{}, Dflt: []string{}, Cases: append([]abs.CaseRef{}, chain...)}
+				n := abs.SNode{SP: append(append([]string{}, sp...), d.Ident()), Keys: []string{}, Dflt: []string{}, Cases: append([]abs.CaseRef{}, chain...), Enums: []abs.EnumDef{}, Bases: []string{}}
 				if n.Cases == nil {
 					n.Cases = []abs.CaseRef{}
 				}
@@ -141,9 +145,11 @@ func ExportSchema(m *meta.Module) abs.Schema {
 					if y.HasDefault() {
 						n.Dflt = []string{fmt.Sprint(y.DefaultValue())}
 					}
+					typeTables(&n, y.Type())
 				case *meta.LeafList:
 					n.Kind = "leaflist"
 					n.Type = TypeName(y.Type())
+					typeTables(&n, y.Type())
 				}
 				out = append(out, n)
 				if h, ok := d.(meta.HasDataDefinitions); ok {
@@ -154,6 +160,32 @@ func ExportSchema(m *meta.Module) abs.Schema {
 	}
 	walk(m, []string{}, nil, "")
 	return out
+}
+
+func typeTables(n *abs.SNode, t *meta.Type) {
+	for _, e := range t.Enums() {
+		n.Enums = append(n.Enums, abs.EnumDef{L: e.Ident(), V: e.Value()})
+	}
+	for _, b := range t.Bits() {
+		n.Enums = append(n.Enums, abs.EnumDef{L: b.Ident(), V: b.Position})
+	}
+	var walk func(ids []*meta.Identity)
+	seen := map[string]bool{}
+	walk = func(ids []*meta.Identity) {
+		for _, id := range ids {
+			if !seen[id.Ident()] {
+				seen[id.Ident()] = true
+				n.Bases = append(n.Bases, id.Ident())
+				var derived []*meta.Identity
+				for _, d := range id.DerivedDirect() {
+					derived = append(derived, d)
+				}
+				walk(derived)
+			}
+		}
+	}
+	walk(t.Base())
+	sort.Strings(n.Bases)
 }
 
 // TypeName is the built-in base type as the harness needs it for value mapping.
@@ -195,6 +227,114 @@ func findIn(p meta.HasDataDefinitions, name string) meta.Definition {
 }
 
 // ---------------------------------------------------------------- values
+
+// LexToGoN converts a canonical lexical form to the Go value a map-backed store holds
+// for that leaf (what the library itself writes: hnd.Val.Value()).
+func LexToGoN(n *abs.SNode, s string) any {
+	switch n.Type {
+	case "enumeration":
+		for _, e := range n.Enums {
+			if e.L == s {
+				return val.Enum{Id: e.V, Label: e.L}
+			}
+		}
+		return val.Enum{Id: -1, Label: s}
+	case "bits":
+		var pos uint64
+		for _, l := range strings.Fields(s) {
+			for _, e := range n.Enums {
+				if e.L == l {
+					pos |= 1 << uint(e.V)
+				}
+			}
+		}
+		return pos
+	case "identityref":
+		return val.IdentRef{Label: s}
+	case "binary":
+		b, _ := base64.StdEncoding.DecodeString(s)
+		return b
+	case "empty":
+		return val.NotEmpty
+	case "union":
+		var i int
+		if _, err := fmt.Sscanf(s, "%d", &i); err == nil && fmt.Sprint(i) == s {
+			return i
+		}
+		return s
+	}
+	return LexToGo(n.Type, s)
+}
+
+// GoToLexN renders what a store holds for a leaf in canonical lexical form.
+func GoToLexN(n *abs.SNode, v any) string {
+	switch n.Type {
+	case "bits":
+		rv := reflect.ValueOf(v)
+		if rv.CanUint() || rv.CanInt() {
+			var pos uint64
+			if rv.CanUint() {
+				pos = rv.Uint()
+			} else {
+				pos = uint64(rv.Int())
+			}
+			var labels []string
+			es := append([]abs.EnumDef{}, n.Enums...)
+			sort.Slice(es, func(i, j int) bool { return es[i].V < es[j].V })
+			for _, e := range es {
+				if pos&(1<<uint(e.V)) != 0 {
+					labels = append(labels, e.L)
+					pos &^= 1 << uint(e.V)
+				}
+			}
+			if pos != 0 {
+				labels = append(labels, fmt.Sprintf("?undeclared-bits-%d", pos))
+			}
+			return strings.Join(labels, " ")
+		}
+	case "binary":
+		if b, ok := v.([]byte); ok {
+			return base64.StdEncoding.EncodeToString(b)
+		}
+	case "empty":
+		return ""
+	case "decimal64":
+		if f, ok := v.(float64); ok {
+			r := new(big.Rat)
+			if r.SetFloat64(f) != nil {
+				return CanonNumeral(strconv.FormatFloat(f, 'f', -1, 64))
+			}
+		}
+	case "enumeration":
+		rv := reflect.ValueOf(v)
+		if rv.CanInt() {
+			for _, e := range n.Enums {
+				if int64(e.V) == rv.Int() {
+					return e.L
+				}
+			}
+		}
+	}
+	return GoToLex(v)
+}
+
+// CanonNumeral renders a decimal numeral canonically (no trailing zeros).
+func CanonNumeral(s string) string {
+	r, ok := new(big.Rat).SetString(strings.TrimSpace(s))
+	if !ok {
+		return s
+	}
+	if r.IsInt() {
+		return r.Num().String()
+	}
+	for d := 1; d <= 20; d++ {
+		x := r.FloatString(d)
+		if back, ok := new(big.Rat).SetString(x); ok && back.Cmp(r) == 0 {
+			return x
+		}
+	}
+	return r.FloatString(20)
+}
 
 // LexToGo converts the canonical lexical form to the Go value a map/struct
 // store holds for that leaf type.
@@ -257,17 +397,17 @@ func GoToLex(v any) string {
 	return fmt.Sprint(v)
 }
 
-// GoToLexList renders a leaf / leaf-list value as a sequence of lexical forms.
-func GoToLexList(v any) []string {
+// GoToLexList renders a leaf-list value as a sequence of lexical forms.
+func GoToLexList(n *abs.SNode, v any) []string {
 	rv := reflect.ValueOf(v)
-	if rv.IsValid() && rv.Kind() == reflect.Slice && rv.Type().Elem().Kind() != reflect.Uint8 {
+	if rv.IsValid() && rv.Kind() == reflect.Slice && !(n.Type == "binary" && rv.Type().Elem().Kind() == reflect.Uint8) {
 		out := []string{}
 		for i := 0; i < rv.Len(); i++ {
-			out = append(out, GoToLex(rv.Index(i).Interface()))
+			out = append(out, GoToLexN(n, rv.Index(i).Interface()))
 		}
 		return out
 	}
-	return []string{GoToLex(v)}
+	return []string{GoToLexN(n, v)}
 }
 
 func sortedKeys(m map[string]any) []string {
